@@ -248,7 +248,9 @@ struct C08 : Scenario {
                 for (size_t i = 0; i < rl; i++) {
                     float expect = a[k * rl + i] * share_of(bb), got = b[(k * nb + bb) * rl + i];
                     // scaling by a power of two is exact except in the subnormal range (far tails below 1.2e-38)
-                    bool ok = pow2 ? (expect == got || (std::fabs(expect) < 2e-38f && std::fabs(got - expect) <= 1e-42f)) : std::fabs(got - expect) <= 2e-5 * std::fabs(expect) + 3e-6 * rowmax;   // (unequal shares: rounding relative to the largest value of the record)
+                    // (also for results a little above it whose interpolation terms were subnormal in the scaled run: thorough tier,
+                    //  4.16128331e-38 vs 4.16128303e-38, one ulp; 1e-42 is ~700 subnormal steps and far below one ulp of anything > 1e-35)
+                    bool ok = pow2 ? (expect == got || (std::fabs(expect) < 1e-35f && std::fabs(got - expect) <= 1e-42f)) : std::fabs(got - expect) <= 2e-5 * std::fabs(expect) + 3e-6 * rowmax;   // (unequal shares: rounding relative to the largest value of the record)
                     if (!ok && !(std::isnan(expect) && std::isnan(got))) { o.fail("C08.identical_bunches", "filling " + patdesc + ": " + nme + " record " + std::to_string(k) + " bunch " + std::to_string(bb) + " element " + std::to_string(i) + " = " + fmt_g(got, 9) + " but share x single-bunch value = " + fmt_g(expect, 9)); break; }
                 }
                 if (o.has("C08.identical_bunches")) break;
